@@ -202,6 +202,9 @@ func (w *World) genVCs(fn *ssa.Function, useH bool, dropped, hcount map[string]b
 				if t := basicTypes[g.Type]; t != nil {
 					v = c.materialize(v, t)
 				}
+				if lv, ok := v.V.(PtrV); ok {
+					v = CVal{V: c.load(out, lv), T: v.T}
+				}
 				gv[g.Name] = v
 			}
 			base := penv.lookup
